@@ -12,7 +12,7 @@ from .util import load_payload, emit, import_pkg
 
 FT = {
     "Query.item": ("Query", "item"), "Query.items": ("Query", "items"), "Query.search": ("Query", "search"),
-    "Query.node": ("Query", "node"), "Query.me": ("Query", "me"), "Query.version": ("Query", "version"),
+    "Query.node": ("Query", "node"), "Query.maybe": ("Query", "maybe"), "Query.me": ("Query", "me"), "Item.thumb": ("ItemFields", "thumb"), "Query.version": ("Query", "version"),
     "Item.id": ("ItemFields", "id"), "Item.displayName": ("ItemFields", "display_name"),
     "Item.createdAt": ("ItemFields", "created_at"), "Item.owner": ("ItemFields", "owner"),
     "Item.related": ("ItemFields", "related"), "Person.id": ("PersonFields", "id"),
@@ -32,6 +32,8 @@ def argvals(pkg, f, i, given):
                         ("filter", "filter", Filter(name_like=f"n{i}", tags=["t"]), {"nameLike": f"n{i}", "tags": ["t"]}, False)],
         "Query.search": [("text", "text", f"t{i}", f"t{i}", True), ("maxHits", "max_hits", 100 + i, 100 + i, False)],
         "Query.node": [("id", "id", f"nid-{i}", f"nid-{i}", True)],
+        "Query.maybe": [("id", "id", f"mid-{i}", f"mid-{i}", False)],
+        "Item.thumb": [("size", "size", 400 + i, 400 + i, False), ("format", "format", f"tf{i}", f"tf{i}", False)],
         "Item.related": [("firstN", "first_n", 200 + i, 200 + i, False),
                          ("filter", "filter", Filter(name_like=f"r{i}", color=Color.GREEN), {"nameLike": f"r{i}", "color": "GREEN"}, False)],
         "Person.avatar": [("size", "size", 300 + i, 300 + i, True), ("format", "format", f"fmt{i}", f"fmt{i}", False)],
